@@ -40,7 +40,7 @@ def run(ctx):
         ctx.notes["models"].append({"model": "JsonReader %s" % (m,), "distinct_states": r.distinct, "checked": "deadlock, Termination"})
     # ---------------- R: the real code under -race ----------------
     pairs = ctx.read_ndjson("join_pairs.ndjson")
-    sample = rng.sample(pairs, min(len(pairs), 400 if thorough else 120)) + joins.random_pairs(rng, 200 if thorough else 60, 6, False, wm_heavy=True)
+    sample = rng.sample(pairs, min(len(pairs), 1200 if thorough else 120)) + joins.random_pairs(rng, 600 if thorough else 60, 6, False, wm_heavy=True)
     inp = ctx.scratch + "/c29_pairs.ndjson"
     ctx.write_ndjson(inp, sample)
     races, stalls, nrun = [], [], 0
@@ -71,7 +71,7 @@ def run(ctx):
             f.write(('{"id":%d,"s":"x"}' % i if i != 333 else '{"id":333,"s":') + "\n")
     big = paths[max(paths)]
     fcases = []
-    for seed in range(4 if thorough else 2):
+    for seed in range(10 if thorough else 2):
         h = {"kind": "delay", "seed": ctx.seed * 100 + seed}
         fcases += [{"id": "scan%d" % seed, "sql": "SELECT t.id AS id FROM %s t WHERE t.s LIKE 'Row1%%' OR t.s ~ 'w[0-9]$' OR t.s ~* 'ROW3'" % big, "hook": h},
                    {"id": "join%d" % seed, "sql": "SELECT a.id AS id FROM %s a JOIN %s b ON a.k = b.k WHERE a.s ~* 'row1'" % (paths[200], paths[1000]), "hook": h},
